@@ -283,7 +283,9 @@ int main(int argc, char **argv)
         while (done < nops) {
                 episode++;
                 nctx = 1 + rng_below(&R, episode % 3 == 0 ? 70 : 20);
-                uint8_t fill = poison ? (uint8_t) (0xA5 ^ (poison * 0x3C) ^ episode) : 0;
+                /* manager and context memory before init: junk in every second episode even without poison mode
+                   (init must establish every field the scheduler later relies on; seed C06-r3) */
+                uint8_t fill = poison ? (uint8_t) (0xA5 ^ (poison * 0x3C) ^ episode) : (episode & 1) ? 0 : (uint8_t) (0xD7 ^ episode);
                 if (posix_memalign((void **) &mgr, 64, A->mgr_size)) return 2;
                 memset(mgr, fill, A->mgr_size);
                 TCALL(F->init, A_(mgr));
